@@ -1467,6 +1467,16 @@ class TaskDispatcher(object):
                             self.task_metrics["ServiceIntegrationsScheduled"].inc(
                                 {"ServiceIntegrationResourceArn": resource_arn}
                             )
+                else:
+                    """
+                    The response to the original invocation might have arrived
+                    before this redelivered Task State event was handled, in
+                    which case it is being held as an orphaned response. Now
+                    that the pending request has been reconstructed make sure
+                    that gets matched, rather than relying on another State
+                    transition event turning up to schedule the check.
+                    """
+                    self.schedule_orphaned_response_handler()
 
 
         # def asl_service_openfaas():  # TODO
